@@ -164,8 +164,11 @@ class FaultEnv(ParallelEnv):
         return n
 
     @property
-    def knob(self):
-        return self._knob
+    def knob(self):                       # target of get_attr("knob"): reading it is a command like any other
+        n = self._command()
+        v = self._knob
+        self._finish(n)
+        return v
 
     @knob.setter
     def knob(self, v):                    # target of set_attr("knob", v)
